@@ -1,33 +1,20 @@
 /-
-  Bridge theorems, NTT_iters part 2: the copy loops of one pass (transposing copy, reflecting and scaling copy of the last
-  inverse pass) and the body of the batch loop of the TRANSLATED `NTT_iters` on the two blocks of `a` and `a2` are the hand
-  model's `transposeCopy`, `scaleRow`, `inverseCopy`, `passBatch` (Model/Ntt.lean).
+  Bridge theorems, NTT_iters part 2, BY-NAME forms (first round; used by Lemmas/ParGenNtt.lean and Props/C12.lean): the copy
+  loops of one pass and the body of the batch loop of the TRANSLATED `NTT_iters`, stated about the lifted loop bodies with
+  their parameter lists, equal the hand model's `transposeCopy`, `scaleRow`, `inverseCopy`, `passBatch` (Model/Ntt.lean).
+  The bridge theorems of C03 / C04 / C05 / C19 do not go through this file (Lemmas/BridgeNttPassG.lean, BridgeNttItersTop.lean).
 -/
 import GoldilocksVerif.Lemmas.BridgeNttStage
+import GoldilocksVerif.Lemmas.BridgeNttRevPerm
+import GoldilocksVerif.Lemmas.BridgeNttPassG
 
 namespace GoldilocksVerif.BridgeNtt
 open GoldilocksVerif Gen.NttGen
 
-theorem ofU64_bv (v : Nat) (h : v < 2 ^ 31) : I32.ofU64 (bv v) = (v : Int) := by
-  unfold I32.ofU64
-  rw [BitVec.toInt_eq_toNat_cond, BitVec.toNat_setWidth, bv_toNat v (by omega), Nat.mod_eq_of_lt (by omega)]
-  rw [if_pos (by omega)]
-
-theorem toU64_nat (n : Nat) : I32.toU64 (n : Int) = bv n := by
-  simp only [I32.toU64, BitVec.ofInt_natCast, bv]
-
-theorem words_bv (NC : Nat) (h : NC * 8 < 2 ^ 64) : (bv NC * 8#64).toNat / 8 = NC := by
-  have := words_toNat (bv NC) (by rw [bv_toNat NC (by omega)]; exact h)
-  rw [this, bv_toNat NC (by omega)]
-
-theorem mr_lt' (x b B nB : Nat) (hx : x < B) (hb : b < nB) : x * nB + b < B * nB := by
-  have := mul_le_of_lt x B nB hx
-  omega
-
 section copies
 variable (H : Heap) (A A2 : Nat) (hne : A ≠ A2) (hA : A < H.size) (hA2 : A2 < H.size)
 
-include hne hA hA2 in
+by_name_form include hne hA hA2 in
 /-- one row of the transposing copy -/
 theorem transpose_body (NC B nB b x N : Nat) (hx : x < B) (hb : b < nB) (hN : B * nB = N) (hNNC : N * NC < 2 ^ 64)
     (hNC8 : NC * 8 < 2 ^ 64) (s : Block × Block) :
@@ -48,7 +35,7 @@ theorem transpose_body (NC B nB b x N : Nat) (hx : x < B) (hb : b < nB) (hN : B 
   rw [e1, e2, words_bv NC hNC8, Heap.R2_block_snd _ _ _ _ hA2, Heap.R2_block_fst _ _ _ _ hne hA, Heap.R2_setBlock_snd,
     copyRow_eq]
 
-include hne hA hA2 in
+by_name_form include hne hA hA2 in
 /-- the transposing copy of one batch = the hand model's `transposeCopy` -/
 theorem transpose_gen (NC B nB b N : Nat) (hb : b < nB) (hN : B * nB = N) (hNNC : N * NC < 2 ^ 64)
     (hNC8 : NC * 8 < 2 ^ 64) (hN64 : N < 2 ^ 64) (s : Block × Block) :
@@ -64,7 +51,7 @@ theorem transpose_gen (NC B nB b N : Nat) (hb : b < nB) (hN : B * nB = N) (hNNC 
     (fun x P2 _ hx => transpose_body H A A2 hne hA hA2 NC B nB b x N hx hb hN hNNC hNC8 (s.1, P2)) s.2
   exact this
 
-include hne hA hA2 in
+by_name_form include hne hA hA2 in
 /-- one element of a scaled row (`body` = the generated loop body, reading the factor through the pointer `a1`) -/
 theorem scale_body (a1 : Ptr) (j : Nat) (f : BitVec 64) (dY sO NC k : Nat) (hk : k < NC) (h1 : dY + NC < 2 ^ 64)
     (h2 : sO + NC < 2 ^ 64) (body : Nat → Heap → Option Heap)
@@ -84,7 +71,7 @@ theorem scale_body (a1 : Ptr) (j : Nat) (f : BitVec 64) (dY sO NC k : Nat) (hk :
   rw [Heap.R2_block_snd _ _ _ _ hA2, Heap.R2_block_fst _ _ _ _ hne hA, Heap.R2_block_other _ _ _ _ _ ha1.1 ha1.2,
     Heap.R2_setBlock_snd, hf]
 
-include hne hA hA2 in
+by_name_form include hne hA hA2 in
 /-- a scaled row = the hand model's `scaleRow` -/
 theorem scaleRow_gen (a1 : Ptr) (j : Nat) (f : BitVec 64) (dY sO NC : Nat) (h1 : dY + NC < 2 ^ 64) (h2 : sO + NC < 2 ^ 64)
     (body : Nat → Heap → Option Heap)
@@ -98,21 +85,7 @@ theorem scaleRow_gen (a1 : Ptr) (j : Nat) (f : BitVec 64) (dY sO NC : Nat) (h1 :
     (f := fun k P2 => P2.setIfInBounds (dY + k) (Gen.Scalar.mul__eEE (s.1.getD (sO + k) 0#64) f)) body 0 NC
     (fun k P2 _ hk => scale_body H A A2 hne hA hA2 a1 j f dY sO NC k hk h1 h2 body (hbody k) ha1 hf (s.1, P2)) s.2
 
-theorem inttIdx_lt (i N : Nat) (hi : i < N) : Model.Ntt.inttIdx i N < N := by
-  unfold Model.Ntt.inttIdx
-  by_cases h : N - i = N
-  · rw [if_pos h]; omega
-  · rw [if_neg h]; omega
-
-/-- the destination row of the reflecting copy -/
-theorem dsty_eq (x nB b B N : Nat) (hx : x < B) (hb : b < nB) (hN : B * nB = N) (hN30 : N ≤ 2 ^ 30) :
-    I32.toU64 (NTT_intt_idx (I32.ofU64 (BitVec.ofNat 64 x * bv nB + BitVec.ofNat 64 b)) (I32.ofU64 (bv N))) =
-      bv (Model.Ntt.inttIdx (x * nB + b) N) := by
-  have h1 : x * nB + b < N := by rw [← hN]; exact mr_lt' x b B nB hx hb
-  show I32.toU64 (NTT_intt_idx (I32.ofU64 (bv x * bv nB + bv b)) (I32.ofU64 (bv N))) = _
-  rw [bv_mul, bv_add, ofU64_bv _ (by omega), ofU64_bv _ (by omega), intt_idx_gen _ _ (by omega), toU64_nat]
-
-include hne hA hA2 in
+by_name_form include hne hA hA2 in
 /-- the reflecting, scaling copy of one batch, factor `powTwoInv[domainPow]` = the hand model's `inverseCopy` (not extend) -/
 theorem inverseCopy_gen (self : NTT_Goldilocks) (o : Model.Ntt.Obj) (hrep : ObjRep H self o)
     (hfr : ObjFrame self A) (hfr2 : ObjFrame self A2)
@@ -146,7 +119,7 @@ theorem inverseCopy_gen (self : NTT_Goldilocks) (o : Model.Ntt.Obj) (hrep : ObjR
           rw [hrep.pti, hrep.pti_off, bv_toNat DP hDP, Nat.zero_add]
           rfl) (s.1, P2)) s.2
 
-include hne hA hA2 in
+by_name_form include hne hA hA2 in
 /-- the same with the factors `r_[dsty]` of `extendPol` (the cache must hold the table) -/
 theorem inverseCopy_gen_ext (self : NTT_Goldilocks) (o : Model.Ntt.Obj) (hrep : ObjRep H self o)
     (hfr : ObjFrame self A) (hfr2 : ObjFrame self A2) (hcache : o.rcache ≠ none)
@@ -187,21 +160,7 @@ theorem inverseCopy_gen_ext (self : NTT_Goldilocks) (o : Model.Ntt.Obj) (hrep : 
             rw [c5, c6, bv_toNat _ (by have := inttIdx_lt _ _ h1; omega), Nat.zero_add]
             simp only [Model.Ntt.scaleFactor, hrc, if_true]) (s.1, P2)) s.2
 
-theorem ObjRep.R2 {H : Heap} {obj : NTT_Goldilocks} {o : Model.Ntt.Obj} {A A2 : Nat} (h : ObjRep H obj o)
-    (hfr : ObjFrame obj A) (hfr2 : ObjFrame obj A2) (s : Block × Block) : ObjRep (Heap.R2 H A A2 s) obj o := by
-  obtain ⟨a1, a2, a3, a4⟩ := hfr
-  obtain ⟨b1, b2, b3, b4⟩ := hfr2
-  apply h.frame
-  rintro c (rfl | rfl | rfl | rfl)
-  · exact Heap.R2_block_other _ _ _ _ _ (fun e => a1 e.symm) (fun e => b1 e.symm)
-  · exact Heap.R2_block_other _ _ _ _ _ (fun e => a2 e.symm) (fun e => b2 e.symm)
-  · exact Heap.R2_block_other _ _ _ _ _ (fun e => a3 e.symm) (fun e => b3 e.symm)
-  · exact Heap.R2_block_other _ _ _ _ _ (fun e => a4 e.symm) (fun e => b4 e.symm)
-
-theorem le_bv (a b : Nat) (ha : a < 2 ^ 64) (hb : b < 2 ^ 64) : (bv a ≤ bv b) ↔ a ≤ b := by
-  rw [BitVec.le_def, bv_toNat a ha, bv_toNat b hb]
-
-include hne hA hA2 in
+by_name_form include hne hA hA2 in
 /-- body of the batch loop of one pass = the hand model's `passBatch` -/
 theorem passBatch_gen (self : NTT_Goldilocks) (o : Model.Ntt.Obj) (hrep : ObjRep H self o)
     (hfr : ObjFrame self A) (hfr2 : ObjFrame self A2)
